@@ -9,6 +9,11 @@
  * Group-law correctness of the results is NOT claimed (assumed residue). */
 #define C05_GROUP_CONTRACTS 1
 #include "assumed_C05.h"
+/* The failure-reporting fprintf inside VERIFY_CHECK (reached only when a check fails, immediately before abort())
+ * is compiled out: CBMC's fprintf model creates ~6 addressed objects per call instance, and the ~700 inlined
+ * VERIFY_CHECK instances of gej_add_var exceed the engine's 2^12 object limit.  abort() - the obligation - stays. */
+#include <stdio.h>
+#define fprintf(...) ((void)0)
 #include "src/secp256k1.c"
 #include "post.h"
 
